@@ -528,11 +528,25 @@ def _as_iter(ip, st, ci, v, argop):
     raise Undecided("into_iter of %s" % v[0])
 
 
+def _zip_of(ip, st, a, b):
+    r = ("iter", "zip", a, b)
+    try:
+        if _unbounded(ip, st, a) or _unbounded(ip, st, b):
+            return r
+        na, nb = iter_count(ip, st, a), iter_count(ip, st, b)
+    except Undecided:
+        return r
+    if not st.F.le(na, nb) and not st.F.le(nb, na):
+        # which side ends the zip is a case split of the caller's path
+        return [(s2, r) for s2, _ in fork_on(st, ("ge", nb - na))]
+    return r
+
+
 @prim("Iterator::zip")
 def iter_zip(ip, st, ci):
     a = _as_iter(ip, st, ci, ci["args"][0], ci["argops"][0])
     b = _as_iter(ip, st, ci, ci["args"][1], ci["argops"][1])
-    return ("iter", "zip", a, b)
+    return _zip_of(ip, st, a, b)
 
 
 @prim("Iterator::next")
@@ -1186,7 +1200,7 @@ def slice_from_ref(ip, st, ci):
 def iter_zip_fn(ip, st, ci):
     a = _as_iter(ip, st, ci, ci["args"][0], ci["argops"][0])
     b = _as_iter(ip, st, ci, ci["args"][1], ci["argops"][1])
-    return ("iter", "zip", a, b)
+    return _zip_of(ip, st, a, b)
 
 
 @prim("core::num::NonZero::<T>::new")
@@ -1231,6 +1245,16 @@ def option_unwrap_or_default(ip, st, ci):
     if v[0] == "enum" and v[3] in ("Some", "Ok"):
         return v[4][0]
     raise Undecided("unwrap_or_default on %s" % (v[3] if v[0] == "enum" else v[0]))
+
+
+@prim("<impl u128>::abs_diff", "<impl u64>::abs_diff", "<impl u32>::abs_diff")
+def int_abs_diff(ip, st, ci):
+    a, b = ci["args"]
+    if a[0] != "int" or b[0] != "int":
+        raise Undecided("abs_diff on %s" % a[0])
+    if T.iequal(a[1], b[1], st.F):
+        return vint(T.iconst(a[1][1], 0))
+    return vint(T.ifn(a[1][1], "abs_diff", a[1], b[1]))
 
 
 @prim("<impl usize>::div_ceil")
@@ -1356,18 +1380,47 @@ def mode_closure_call(ip, st, ci):
 
 
 # ---------------------------------------------------------------- Option / Result combinators, zeroize
-@prim("Option::<T>::and_then", "Option::<T>::map")
+@prim("Option::<T>::filter")
+def option_filter(ip, st, ci):
+    v, clo = ci["args"]
+    if v[0] != "enum":
+        raise Undecided("Option::filter on %s" % v[0])
+    if v[3] == "None":
+        return v
+    cell = ("flt", len(st.heap))
+    st.heap[cell] = v[4][0]
+    out = []
+    for s2, r in _call_closure(ip, st, ci, clo, [vref(Target(cell))]):
+        if r[0] != "bool":
+            raise Undecided("Option::filter predicate returned %s" % r[0])
+        c = r[1]
+        if c in (("true",), ("false",)):
+            cases = [(s2, c == ("true",))]
+        elif c[0] in ("ge", "lt", "eq", "ne"):
+            cases = fork_on(s2, c)
+        else:
+            raise Undecided("Option::filter on an undecidable condition")
+        for s3, yes in cases:
+            out.append((s3, v if yes else vnone()))
+    return out
+
+
+@prim("Option::<T>::and_then", "Option::<T>::map", "Result::<T, E>::map")
 def option_and_then(ip, st, ci):
     v, clo = ci["args"]
     if v[0] != "enum":
         raise Undecided("Option combinator on %s" % v[0])
-    if v[3] == "None":
+    if v[3] in ("None", "Err"):
         return v
     is_map = ci["fn"]["name"] == "map"
+    if v[3] == "Ok":
+        vsome_ = lambda r: venum("core::result::Result", 0, "Ok", [r])
+    else:
+        vsome_ = vsome
     if clo[0] == "closure":
         out = []
         for s2, r in _call_closure(ip, st, ci, clo, [v[4][0]]):
-            out.append((s2, vsome(r) if is_map else r))
+            out.append((s2, vsome_(r) if is_map else r))
         return out
     if clo[0] == "fn":
         # path to a function item used as the callback
@@ -1377,7 +1430,7 @@ def option_and_then(ip, st, ci):
         ci2["argops"] = [ci["argops"][0]]
         out = []
         for s2, r in ip.call(st, ci2):
-            out.append((s2, vsome(r) if is_map else r))
+            out.append((s2, vsome_(r) if is_map else r))
         return out
     raise Undecided("Option combinator with %s callback" % clo[0])
 
@@ -1922,7 +1975,15 @@ def iter_skip_take(ip, st, ci):
     k = ci["args"][1]
     if k[0] != "size":
         raise Undecided("skip/take count")
-    return ("iter", ci["fn"]["name"], a, k[1])
+    r = ("iter", ci["fn"]["name"], a, k[1])
+    try:
+        n = iter_count(ip, st, a)
+    except Undecided:
+        return r
+    if not st.F.le(k[1], n) and not st.F.le(n, k[1]):
+        # which of the two bounds ends the iterator is a case split of the caller's path
+        return [(s2, r) for s2, _ in fork_on(st, ("ge", n - k[1]))]
+    return r
 
 
 class _Ctx(dict):
